@@ -32,15 +32,15 @@ TRUSTED = ['xarray isel / where / to_netcdf / open_mfdataset and netCDF4 round-t
            'the clip mask itself (C07) is taken as given: the model is fed the content of the mask dataset emsarray produced']
 ASSUMPTIONS = ['file-level behaviour of the clip (temporary netCDF files, lazy loading) is runtime: compared, not proved']
 
-FILL = {'f8': 'm', 'i4': 'u', 'i4fill': 'm', 'i4missing': 'm'}
+FILL = {'f8': 'm', 'i4': 'u', 'i4fill': 'm', 'i4missing': 'm', 'i4fill0': 'm'}
 
 
 def tag_str(da, dtype: str) -> str:
     """canonical array string; the raw fill value -999 of a variable with a fill attribute is a missing value"""
     s = arr_str(da)
-    if dtype in ('i4fill', 'i4missing'):
+    if dtype in G.INT_FILL:
         head, data = s.split('|')
-        s = head + '|' + ','.join('nan' if v == '-999' else v for v in data.split(','))
+        s = head + '|' + ','.join('nan' if v == str(G.INT_FILL[dtype]) else v for v in data.split(','))
     return s
 
 
@@ -63,6 +63,31 @@ def check_case(ctx, recipe, built, c, geom_kind, geom, buffer, variant, items) -
         ctx.oracle_fail('make-clip-mask-raised', desc, f'{type(e).__name__}: {e}')
         return
     mesh = conv == 'ugrid'
+    # ---- which cells are "selected": stated independently of emsarray's mask -----------------
+    # the cells whose polygon intersects the geometry, grown `buffer` times over neighbouring cells
+    try:
+        from harness.props import c07 as C07
+        from harness.gen import clipgeoms
+        polys = clipgeoms.ground_polygons(built)
+        hit = [bool(q is not None and q.intersects(geom)) for q in polys]
+        if mesh:
+            want, _, _ = C07.mesh_expected([list(f) for f in recipe['faces']], None,
+                                           {n for n, h in enumerate(hit) if h}, buffer)
+            got_sel = {n for n, v in enumerate(mask['new_face_index'].values) if not np.isnan(v)}
+        else:
+            shape = built.grids['face'][1]
+            want_arr = C07.dilate(np.array(hit, dtype=bool).reshape(shape), buffer)
+            want = {n for n, v in enumerate(want_arr.reshape(-1)) if v}
+            fm = mask['face_mask'] if 'face_mask' in mask else mask['cell_mask']
+            got_sel = {n for n, v in enumerate(np.asarray(fm.transpose(*built.grids['face'][0]).values).reshape(-1)) if v}
+        if want - got_sel:
+            ctx.oracle_fail('selected-cell-not-kept', desc,
+                            f'cells {sorted(want - got_sel)[:10]} are selected by the geometry and buffer but the clip drops or blanks them')
+        if got_sel - want:
+            ctx.oracle_fail('unselected-cell-kept', desc,
+                            f'cells {sorted(got_sel - want)[:10]} are not selected by the geometry and buffer but their data survives')
+    except KeyError:
+        pass
     if mesh:
         kept_any = bool(np.any(~np.isnan(mask['new_face_index'].values)))
     else:
@@ -160,8 +185,8 @@ def check_case(ctx, recipe, built, c, geom_kind, geom, buffer, variant, items) -
             ctx.oracle_fail('dims-changed', {**desc, 'var': name}, f'{name}: dims {got.dims}, were {da.dims}')
             continue
         exp = np.asarray(da.values, dtype='f8')
-        if info.dtype in ('i4fill', 'i4missing'):
-            exp = np.where(exp == -999, np.nan, exp)
+        if info.dtype in G.INT_FILL:
+            exp = np.where(exp == G.INT_FILL[info.dtype], np.nan, exp)
         if mesh:
             for dim, key in ((names['face_dim'], 'new_face_index'), (names['node_dim'], 'new_node_index'), (names['edge_dim'], 'new_edge_index')):
                 if dim in da.dims and key in mask:
@@ -187,8 +212,8 @@ def check_case(ctx, recipe, built, c, geom_kind, geom, buffer, variant, items) -
                 mkb = np.transpose(mk, perm).reshape(shape)
                 exp = np.where(mkb, exp, np.nan)
         g = np.asarray(got.values, dtype='f8')
-        if info.dtype in ('i4fill', 'i4missing'):
-            g = np.where(g == -999, np.nan, g)
+        if info.dtype in G.INT_FILL:
+            g = np.where(g == G.INT_FILL[info.dtype], np.nan, g)
         if g.shape != exp.shape or not np.array_equal(g, exp, equal_nan=True):
             sig = 'clip-values-differ'
             if FILL[info.dtype] == 'u' and g.shape == exp.shape:
@@ -216,7 +241,7 @@ def make_recipe(ctx, k):
             kw['bounds_as'] = 'vars'
     recipe = G.random_recipe(rng, conv, ctx.tier, **kw)
     return G.attach_vars(rng, recipe, n_vars=3, max_extra=1, with_nan=True,
-                         dtypes=('f8', 'f8', 'i4', 'i4fill', 'i4missing'))
+                         dtypes=('f8', 'f8', 'i4', 'i4fill', 'i4missing', 'i4fill0'))
 
 
 def examine(ctx, recipe, items) -> None:
